@@ -393,7 +393,7 @@ def c04(tier):
     run.submit(p3_stream_job, "avg-interval", "C04", iv)
     return run.finish(RULE_DEF + "; for the interval/constant/monotone clauses: states in which the average reports a value")
 
-def rel_job(run, name, prop, cf, alphabet, unit, L, a, b, mode, bitexact=False, cfgs2=None, invonly=False, pow2=0, rescaled=False):
+def rel_job(run, name, prop, cf, alphabet, unit, L, a, b, mode, bitexact=False, cfgs2=None, invonly=False, pow2=0, rescaled=False, profile="dev", flt=None):
     """two real runs per history: x and a*x+b (a = [num,den], b = [num,den]); decided by MC_Rel"""
     an, ad = a; bn, bd = b
     unit2 = ad * bd * unit
@@ -411,7 +411,9 @@ def rel_job(run, name, prop, cf, alphabet, unit, L, a, b, mode, bitexact=False, 
         sc2["pow2"] = pow2          # second run in units of 2^pow2 (exact); only invariance is asserted
     if rescaled:
         sc["rescaled"] = True; sc2["outpow2"] = -pow2   # ... and its answers converted back to the original unit (exact)
-    run.submit(p1_job, name, "MC_Rel", sc, scope2=sc2,
+    if flt:
+        sc["float"] = flt; sc2["float"] = flt
+    run.submit(p1_job, name, "MC_Rel", sc, scope2=sc2, profile=profile,
                nontrivial_keys=("rel.inv", "rel.scale", "rel.affine", "rel.neg", "rel.rsi"))
 
 def c12_cfgs(n):
@@ -446,6 +448,9 @@ def c12(tier):
         dif = [c for c in cf if c["k"] in ("HLNormalizer", "NoiseEliminationTechnology", "EhlersFisherTransform")] + [{"k": "EhlersFisherTransform", "n": n, "c": [E, E]}]
         rel_job(run, "offset-dyadic-n%d" % n, "C12", dif, A, 1, L, [1, 1], [1048576, 1], "affine", bitexact=True, invonly=True)
         rel_job(run, "neg-n%d" % n, "C12", cf, A, 1, L, [-1, 1], [0, 1], "neg", cfgs2=swap_minmax(cf))
+    # the optimised build and the f32 instantiation (a power of two is exact in both)
+    rel_job(run, "scale2-release", "C12", c12_cfgs(3), [-2, 0, 1, 3], 1, 6, [2, 1], [0, 1], "scale", bitexact=True, profile="release")
+    rel_job(run, "scale2-f32", "C12", c12_cfgs(3), [-2, 0, 1, 3], 1, 6, [2, 1], [0, 1], "scale", bitexact=True, flt="f32")
     # positive-domain views
     pos = [{"k": "LnReturn"}, {"k": "Drawdown"}]
     rel_job(run, "pos-scale2", "C12", pos, [1, 2, 4, 7], 1, 6 if tier == "quick" else 8, [2, 1], [0, 1], "scale", bitexact=True)
@@ -620,6 +625,14 @@ def c08(tier):
                    profile=prof, nontrivial_keys=("ready.yes", "ready.no"), view_label=label)
             run.submit(p1_job, "rdy-pos-n%d-%s" % (n, prof), "MC_Obs", {"prop": "C08", "cfgs": catalogue(n, positive=True), "alphabet": [1, 2, 4], "unit": 1, "maxlen": L},
                    profile=prof, nontrivial_keys=("ready.yes", "ready.no"), view_label=label)
+    # readiness and finiteness do not depend on the unit or on the float type: units of 2^-70 / 2^60, f32
+    for n in (2, 3):
+        cat_ = [c for c in catalogue(n) if c["k"] not in ("Constant", "GTE", "LTE", "Add", "Subtract", "Divide")]
+        for k_ in (-70, 60):
+            run.submit(p1_job, "rdy-units-n%d-p%d" % (n, k_), "MC_Obs", {"prop": "C08", "cfgs": cat_, "alphabet": [-1, 0, 1], "unit": 1, "maxlen": 6, "pow2": k_},
+                       nontrivial_keys=("ready.yes", "ready.no"), view_label=label)
+        run.submit(p1_job, "rdy-f32-n%d" % n, "MC_Obs", {"prop": "C08", "cfgs": catalogue(n), "alphabet": [-1, 0, 1], "unit": 1, "maxlen": 6, "float": "f32"},
+                   nontrivial_keys=("ready.yes", "ready.no"), view_label=label)
     # chains: an inner view delays / thins what the outer one is delivered
     inners = [sma(2), {"k": "Roc", "n": 1}, {"k": "LaguerreRSI", "n": 2}] + ([sma(3), {"k": "Rsi", "n": 2}] if tier != "quick" else [])
     for inner in inners:
